@@ -357,6 +357,8 @@ package cli
 //@       c.commands[n0] != nil && fresh(c.commands[n0])
 //@   ensures inherits-policy: c.commands[n0].ErrorHandling == old(c.ErrorHandling)
 //@   ensures aliases: c.commands[n0].aliases == strings_Fields(name) && c.commands[n0].name == strings_Fields(name)[0] && c.commands[n0].init == init
+//@   ensures blank-otherwise: !c.commands[n0].Hidden && c.commands[n0].Spec == "" && c.commands[n0].LongDesc == "" && c.commands[n0].desc == desc &&
+//@       c.commands[n0].Before == nil && c.commands[n0].Action == nil && c.commands[n0].After == nil && c.commands[n0].fsm == nil
 //@   ensures tables: c.commands[n0].optionsIdx != nil && c.commands[n0].argsIdx != nil && len(c.commands[n0].options) == 0 &&
 //@       len(c.commands[n0].args) == 0 && len(c.commands[n0].commands) == 0
 
